@@ -80,9 +80,9 @@ Section Heads.
 
   Lemma head_lex_operator : lex_operator (c :: r) = None.
   Proof.
-    unfold lex_operator. cbn [bs strip_prefix]. cbn [Ascii.N_of_ascii Ascii.N_of_digits N.add N.mul].
-    change (N_of_ascii ">") with 62. change (N_of_ascii "<") with 60.
-    rewrite (head_ok_neq c 62 Hc eq_refl), (head_ok_neq c 60 Hc eq_refl) by discriminate. reflexivity.
+    unfold lex_operator.
+    change (bs ">=") with [62; 61]. change (bs "<=") with [60; 61]. change (bs ">") with [62]. change (bs "<") with [60].
+    rewrite !strip_prefix_head_neq; auto; apply head_ok_neq; auto; discriminate.
   Qed.
 
   Lemma head_parse_comparison : parse_comparison (c :: r) = None.
@@ -94,7 +94,7 @@ Section Heads.
   Qed.
 
   Lemma head_not_matchall : strip_prefix (bs "*:*") (c :: r) = None.
-  Proof. cbn [bs strip_prefix]. change (N_of_ascii "*") with 42. rewrite (head_ok_neq c 42 Hc eq_refl) by discriminate. reflexivity. Qed.
+  Proof. change (bs "*:*") with [42; 58; 42]. apply strip_prefix_head_neq. apply head_ok_neq; auto; discriminate. Qed.
 
   Lemma head_not_lparen : strip_prefix [40] (c :: r) = None.
   Proof. cbn. rewrite (head_ok_neq c 40 Hc eq_refl) by discriminate. reflexivity. Qed.
@@ -336,3 +336,354 @@ Proof.
   assert (skip (rbr b :: rest) = rbr b :: rest) as -> by (destruct b; reflexivity).
   destruct b; reflexivity.
 Qed.
+
+(* ---------- fields ---------- *)
+
+Definition plain (s : bytes) : bool := forallb (fun c => negb (lucene_special c)) s.
+
+(* text that is printed as it is and read back as one TERM *)
+Definition raw_ok (a : bytes) : bool := term_ok a && plain a.
+
+(* attribute names: raw_ok and not one of the two pseudo-fields *)
+Definition attr_ok (a : bytes) : bool :=
+  raw_ok a && negb (bytes_eqb a EXISTS_FIELD) && negb (bytes_eqb a MISSING_FIELD).
+
+Lemma raw_ok_parts a : raw_ok a = true -> term_ok a = true /\ plain a = true /\ lucene_escape a = a /\ unescape a = a.
+Proof.
+  unfold raw_ok. intros H. apply andb_true_iff in H as [T P]. repeat split; auto.
+  - apply lucene_escape_plain; exact P.
+  - apply unescape_plain; exact P.
+Qed.
+
+Lemma raw_head a : raw_ok a = true -> exists c r, a = c :: r /\ head_ok c.
+Proof.
+  intros H. destruct (raw_ok_parts a H) as (T & P & E & _). destruct (term_ok_parts a T) as (N & W & _).
+  destruct (escaped_head a N W) as (c & r & Hc & Hh). rewrite E in Hc. eauto.
+Qed.
+
+Lemma field_explicit a X : raw_ok a = true -> parse_field_opt (a ++ 58 :: X) = (Some a, X).
+Proof.
+  intros H. destruct (raw_ok_parts a H) as (T & P & E & _). unfold parse_field_opt.
+  rewrite <- E at 1. rewrite (lex_term_escaped a (58 :: X) T eq_refl). rewrite E. reflexivity.
+Qed.
+
+Lemma field_none_of_lex s :
+  (lex_term s = None \/ exists t r, lex_term s = Some (t, r) /\ (match r with c :: _ => (c =? 58) = false | [] => True end)) ->
+  parse_field_opt s = (None, s).
+Proof.
+  unfold parse_field_opt. intros [->|(t & r & -> & H)]; [reflexivity|].
+  destruct r as [|c r]; [reflexivity|]. rewrite H. reflexivity.
+Qed.
+
+Lemma term_end_not_colon rest : term_end rest = true -> match rest with c :: _ => (c =? 58) = false | [] => True end.
+Proof.
+  destruct rest as [|c r]; [auto|]. cbn [term_end]. intros H.
+  apply orb_true_iff in H as [H|H]; [|apply N.eqb_eq in H; subst; reflexivity].
+  apply orb_true_iff in H as [H|H]; [|apply N.eqb_eq in H; subst; reflexivity].
+  apply orb_true_iff in H as [H|H]; [|apply N.eqb_eq in H; subst; reflexivity].
+  apply is_ws_cases in H as [ -> | [ -> | [ -> | -> ] ] ]; reflexivity.
+Qed.
+
+(* ---------- clauses ---------- *)
+
+Section Clause.
+  Variable sub : bytes -> bytes -> option (list qitem * bytes).
+
+  Lemma parse_clause_eq df s :
+    parse_clause sub df s =
+    match strip_prefix (bs "*:*") s with
+    | Some r => Some (VOk NAll, r)
+    | None =>
+        let '(fld, r1) := parse_field_opt s in
+        match parse_value (skip r1) with
+        | Some (v, r2) => Some (clause_node (or_default fld df) v, r2)
+        | None =>
+            match strip_prefix [40] (skip r1) with
+            | Some r2 =>
+                match sub (or_default fld df) (skip r2) with
+                | Some (items, r3) =>
+                    match strip_prefix [41] (skip r3) with
+                    | Some r4 => Some (fold_query (or_default fld df) items, r4)
+                    | None => None
+                    end
+                | None => None
+                end
+            | None => None
+            end
+        end
+    end.
+  Proof. reflexivity. Qed.
+
+  (* a printed `field? value` clause: the value text V (read back as pv) behind the optional field *)
+  Lemma clause_leaf a V pv rest c0 r0 :
+    raw_ok a = true ->
+    V = c0 :: r0 -> is_ws c0 = false ->
+    parse_value (V ++ rest) = Some (pv, rest) ->
+    (bytes_eqb a DEFAULT_FIELD = true ->
+       strip_prefix (bs "*:*") (V ++ rest) = None /\ parse_field_opt (V ++ rest) = (None, V ++ rest)) ->
+    parse_clause sub DEFAULT_FIELD (is_default_attr a ++ V ++ rest) = Some (clause_node a pv, rest).
+  Proof.
+    intros Ha HV Hw Hpv Hdef. subst V. rewrite parse_clause_eq. unfold is_default_attr.
+    destruct (bytes_eqb a DEFAULT_FIELD) eqn:D.
+    - apply bytes_eqb_eq in D. subst a. destruct (Hdef eq_refl) as [M F]. cbn [app] in *. rewrite M, F.
+      rewrite (skip_head c0 _ Hw), Hpv. reflexivity.
+    - rewrite <- app_assoc. cbn [app] in *.
+      destruct (raw_head a Ha) as (c & r & Ea & Hc).
+      assert (strip_prefix (bs "*:*") (a ++ 58 :: c0 :: r0 ++ rest) = None) as ->.
+      { rewrite Ea. cbn [app]. apply head_not_matchall; exact Hc. }
+      rewrite (field_explicit a _ Ha). rewrite (skip_head c0 _ Hw), Hpv. reflexivity.
+  Qed.
+
+  Lemma clause_node_general a pv :
+    attr_ok a = true ->
+    clause_node a pv =
+    match pv with
+    | PVStar => if bytes_eqb a DEFAULT_FIELD then VOk NAll else VOk (NWild (unescape a) [42])
+    | PVTerm t => VOk (NTerm (unescape a) (unescape t))
+    | PVPhrase p => VOk (NQuoted (unescape a) (unescape p))
+    | PVPrefix p => VOk (NPrefix (unescape a) (unescape p))
+    | PVGlob g => VOk (NWild (unescape a) (unescape g))
+    | PVRange lb lo hi rb =>
+        if Bool.eqb lb rb then VOk (NRange (unescape a) (cval_from lo) lb (cval_from hi) rb) else VPanic
+    | PVCmp op numeric raw =>
+        VOk (NCmp (unescape a) op (if numeric then cval_from raw else CStr (unescape raw)))
+    end.
+  Proof.
+    unfold attr_ok. intros H. apply andb_true_iff in H as [H M]. apply andb_true_iff in H as [_ E].
+    apply negb_true_iff in E, M. unfold clause_node. rewrite E, M. reflexivity.
+  Qed.
+
+  Lemma attr_ok_raw a : attr_ok a = true -> raw_ok a = true.
+  Proof. unfold attr_ok. intros H. apply andb_true_iff in H as [H _]. apply andb_true_iff in H as [H _]. exact H. Qed.
+
+  Lemma attr_unescape a : attr_ok a = true -> unescape a = a.
+  Proof. intros H. apply (raw_ok_parts a (attr_ok_raw a H)). Qed.
+
+  Variable fdisp : spec_float -> bytes.
+
+  (* --- term --- *)
+  Theorem clause_term a v rest :
+    attr_ok a = true -> term_ok v = true -> term_end rest = true ->
+    parse_clause sub DEFAULT_FIELD (to_lucene fdisp (NTerm a v) ++ rest) = Some (VOk (NTerm a v), rest).
+  Proof.
+    intros A T E. cbn [to_lucene]. rewrite <- app_assoc.
+    destruct (term_ok_parts v T) as (N & W & U & K). destruct (escaped_head v N W) as (c & r & Hv & Hc).
+    rewrite (clause_leaf a (lucene_escape v) (PVTerm (lucene_escape v)) rest c r (attr_ok_raw a A) Hv
+               (head_ok_not_ws c Hc) (parse_value_term v rest T E)).
+    - rewrite clause_node_general by exact A. rewrite attr_unescape by exact A.
+      rewrite unescape_lucene_escape. reflexivity.
+    - intros _. split.
+      + rewrite Hv. cbn [app]. apply head_not_matchall; exact Hc.
+      + apply field_none_of_lex. right. exists (lucene_escape v), rest. split.
+        * apply lex_term_escaped; auto. apply term_end_stops; exact E.
+        * apply term_end_not_colon; exact E.
+  Qed.
+
+  (* --- quoted phrase: any phrase --- *)
+  Theorem clause_quoted a v rest :
+    attr_ok a = true ->
+    parse_clause sub DEFAULT_FIELD (to_lucene fdisp (NQuoted a v) ++ rest) = Some (VOk (NQuoted a v), rest).
+  Proof.
+    intros A. cbn [to_lucene]. rewrite <- app_assoc.
+    replace ((34 :: quoted_escape v ++ [34]) ++ rest) with ((34 :: quoted_escape v ++ [34]) ++ rest) by reflexivity.
+    rewrite (clause_leaf a (34 :: quoted_escape v ++ [34]) (PVPhrase (quoted_escape v)) rest 34 (quoted_escape v ++ [34])
+               (attr_ok_raw a A) eq_refl eq_refl).
+    - rewrite clause_node_general by exact A. rewrite attr_unescape by exact A.
+      rewrite unescape_quoted_escape. reflexivity.
+    - cbn [app]. rewrite <- app_assoc. cbn [app]. apply parse_value_quoted.
+    - intros _. split; reflexivity.
+  Qed.
+
+  (* --- prefix --- *)
+  Theorem clause_prefix a v rest :
+    attr_ok a = true -> term_ok v = true -> term_end rest = true ->
+    parse_clause sub DEFAULT_FIELD (to_lucene fdisp (NPrefix a v) ++ rest) = Some (VOk (NPrefix a v), rest).
+  Proof.
+    intros A T E. cbn [to_lucene]. rewrite <- app_assoc.
+    destruct (term_ok_parts v T) as (N & W & U & K). destruct (escaped_head v N W) as (c & r & Hv & Hc).
+    assert (lucene_escape v ++ [42] = c :: (r ++ [42])) as HV by (rewrite Hv; reflexivity).
+    rewrite (clause_leaf a (lucene_escape v ++ [42]) (PVPrefix (lucene_escape v)) rest c (r ++ [42])
+               (attr_ok_raw a A) HV (head_ok_not_ws c Hc)).
+    - rewrite clause_node_general by exact A. rewrite attr_unescape by exact A.
+      rewrite unescape_lucene_escape. reflexivity.
+    - rewrite <- app_assoc. cbn [app]. apply parse_value_prefix; auto.
+    - intros _. split.
+      + rewrite HV. cbn [app]. apply head_not_matchall; exact Hc.
+      + apply field_none_of_lex. right. exists (lucene_escape v), (42 :: rest). split.
+        * rewrite <- app_assoc. cbn [app]. apply lex_term_escaped; auto.
+        * reflexivity.
+  Qed.
+
+  (* --- exists / missing: the attribute is printed raw --- *)
+  Lemma clause_pseudo (F : bytes) (mk : bytes -> node) a rest :
+    raw_ok F = true -> (forall t, clause_node F (PVTerm t) = VOk (mk (unescape t))) ->
+    raw_ok a = true -> term_end rest = true ->
+    parse_clause sub DEFAULT_FIELD ((F ++ [58]) ++ a ++ rest) = Some (VOk (mk a), rest).
+  Proof.
+    intros HF Hmk Ha E. rewrite parse_clause_eq. rewrite <- app_assoc. cbn [app].
+    destruct (raw_head F HF) as (c & r & EF & Hc).
+    assert (strip_prefix (bs "*:*") (F ++ 58 :: a ++ rest) = None) as ->.
+    { rewrite EF. cbn [app]. apply head_not_matchall; exact Hc. }
+    rewrite (field_explicit F _ HF).
+    destruct (raw_head a Ha) as (c' & r' & Ea & Hc'). destruct (raw_ok_parts a Ha) as (T & P & El & Eu).
+    assert (skip (a ++ rest) = a ++ rest) as ->.
+    { rewrite Ea. cbn [app]. apply head_skip; exact Hc'. }
+    rewrite <- El at 1. rewrite (parse_value_term a rest T E). rewrite El.
+    cbn [or_default]. rewrite Hmk, Eu. reflexivity.
+  Qed.
+
+  Theorem clause_exists a rest :
+    raw_ok a = true -> term_end rest = true ->
+    parse_clause sub DEFAULT_FIELD (to_lucene fdisp (NExists a) ++ rest) = Some (VOk (NExists a), rest).
+  Proof.
+    intros Ha E. cbn [to_lucene]. change (bs "_exists_:") with (EXISTS_FIELD ++ [58]).
+    apply (clause_pseudo EXISTS_FIELD NExists); auto.
+  Qed.
+
+  Theorem clause_missing a rest :
+    raw_ok a = true -> term_end rest = true ->
+    parse_clause sub DEFAULT_FIELD (to_lucene fdisp (NMissing a) ++ rest) = Some (VOk (NMissing a), rest).
+  Proof.
+    intros Ha E. cbn [to_lucene]. change (bs "_missing_:") with (MISSING_FIELD ++ [58]).
+    apply (clause_pseudo MISSING_FIELD NMissing); auto.
+  Qed.
+
+  Theorem clause_all rest :
+    parse_clause sub DEFAULT_FIELD (to_lucene fdisp NAll ++ rest) = Some (VOk NAll, rest).
+  Proof. reflexivity. Qed.
+
+  (* --- comparisons --- *)
+  Theorem clause_cmp_str a op v rest :
+    attr_ok a = true -> term_ok v = true -> numlike v = false -> term_end rest = true ->
+    parse_clause sub DEFAULT_FIELD (to_lucene fdisp (NCmp a op (CStr v)) ++ rest) = Some (VOk (NCmp a op (CStr v)), rest).
+  Proof.
+    intros A T NL E. cbn [to_lucene cval_lucene]. rewrite <- app_assoc.
+    destruct (cmp_head op) as (c & r & Hop & Hc).
+    assert (cmp_lucene op ++ lucene_escape v = c :: (r ++ lucene_escape v)) as HV by (rewrite Hop; reflexivity).
+    rewrite (clause_leaf a (cmp_lucene op ++ lucene_escape v) (PVCmp op false (lucene_escape v)) rest c _
+               (attr_ok_raw a A) HV).
+    - rewrite clause_node_general by exact A. rewrite attr_unescape by exact A.
+      rewrite unescape_lucene_escape. reflexivity.
+    - destruct Hc as [->| ->]; reflexivity.
+    - rewrite <- app_assoc. apply parse_value_cmp_str; auto.
+    - intros _. rewrite HV. destruct Hc as [->| ->]; split; reflexivity.
+  Qed.
+
+  (* a numeric bound: its text t reads back as cv, is one NUMERIC_TERM and is made of RANGE_VALUE characters *)
+  Definition num_text_ok (t : bytes) (cv : cval) : Prop :=
+    cval_from t = cv /\ forallb range_char t = true /\ (exists c r, t = c :: r /\ int_char c = true) /\
+    (forall rest, term_end rest = true -> lex_numeric_term (t ++ rest) = Some (t, rest)).
+
+  Lemma int_char_range c : int_char c = true -> range_char c = true.
+  Proof.
+    unfold int_char, range_char. intros H. apply orb_true_iff in H as [H|H].
+    - apply is_digit_spec in H. apply negb_true_iff. unfold is_ws.
+      rewrite !orb_false_iff, !N.eqb_neq. repeat split; lia.
+    - apply N.eqb_eq in H. subst. reflexivity.
+  Qed.
+
+  Lemma int_text_ok z : i64_range z = true -> num_text_ok (dec_of_Z z) (CInt z).
+  Proof.
+    intros R. repeat split.
+    - apply cval_from_dec; exact R.
+    - pose proof (dec_of_Z_chars z) as H. rewrite forallb_forall in *. intros c Hc. apply int_char_range; auto.
+    - destruct (dec_of_Z_head z) as (c & r & E & Hc). eauto.
+    - intros rest E. apply lex_numeric_term_dec. apply term_end_num_stop; exact E.
+  Qed.
+
+  Lemma clause_cmp_num a op t cv rest :
+    attr_ok a = true -> num_text_ok t cv -> term_end rest = true ->
+    parse_clause sub DEFAULT_FIELD ((is_default_attr a ++ cmp_lucene op ++ t) ++ rest) = Some (VOk (NCmp a op cv), rest).
+  Proof.
+    intros A (Hcv & _ & (c' & r' & Et & Hc') & Hlex) E. rewrite <- app_assoc.
+    destruct (cmp_head op) as (c & r & Hop & Hc).
+    assert (cmp_lucene op ++ t = c :: (r ++ t)) as HV by (rewrite Hop; reflexivity).
+    rewrite (clause_leaf a (cmp_lucene op ++ t) (PVCmp op true t) rest c _ (attr_ok_raw a A) HV).
+    - rewrite clause_node_general by exact A. rewrite attr_unescape by exact A. rewrite Hcv. reflexivity.
+    - destruct Hc as [->| ->]; reflexivity.
+    - rewrite <- app_assoc. rewrite parse_value_eq.
+      destruct (cmp_prefix_fails op (t ++ rest)) as (-> & -> & ->). unfold parse_comparison.
+      assert (lex_operator (cmp_lucene op ++ t ++ rest) = Some (op, t ++ rest)) as ->.
+      { rewrite Et. cbn [app]. apply lex_operator_printed.
+        unfold int_char in Hc'. apply orb_true_iff in Hc' as [Hd|Hd].
+        - apply is_digit_spec in Hd. apply N.eqb_neq. lia.
+        - apply N.eqb_eq in Hd. subst. reflexivity. }
+      rewrite (Hlex rest E). reflexivity.
+    - intros _. rewrite HV. destruct Hc as [->| ->]; split; reflexivity.
+  Qed.
+
+  Theorem clause_cmp_int a op z rest :
+    attr_ok a = true -> i64_range z = true -> term_end rest = true ->
+    parse_clause sub DEFAULT_FIELD (to_lucene fdisp (NCmp a op (CInt z)) ++ rest) = Some (VOk (NCmp a op (CInt z)), rest).
+  Proof. intros A R E. cbn [to_lucene cval_lucene]. apply clause_cmp_num; auto. apply int_text_ok; exact R. Qed.
+
+  (* --- floats: the Display text of the float is a hypothesis --- *)
+  Variable fok : spec_float -> bool.
+  Hypothesis Hfloat : forall f, fok f = true -> num_text_ok (fdisp f) (CFloat f).
+
+  Theorem clause_cmp_float a op f rest :
+    attr_ok a = true -> fok f = true -> term_end rest = true ->
+    parse_clause sub DEFAULT_FIELD (to_lucene fdisp (NCmp a op (CFloat f)) ++ rest) = Some (VOk (NCmp a op (CFloat f)), rest).
+  Proof. intros A R E. cbn [to_lucene cval_lucene]. apply clause_cmp_num; auto. Qed.
+
+  (* --- ranges --- *)
+  Definition is_none {A} (o : option A) : bool := match o with None => true | Some _ => false end.
+
+  (* a string bound: RANGE_VALUE characters, and not re-read as `*`, a number or a quoted string *)
+  Definition str_bound_ok (s : bytes) : bool :=
+    nonempty s && forallb range_char s && bytes_eqb (escape_quotes s) s && negb (bytes_eqb s [42])
+    && is_none (parse_i64 s) && is_none (parse_f64 s).
+
+  Definition bound_ok (cv : cval) : bool :=
+    match cv with
+    | CUnb => true
+    | CInt z => i64_range z
+    | CStr s => str_bound_ok s
+    | CFloat f => fok f
+    end.
+
+  Lemma escape_range_chars s : forallb range_char s = true -> forallb range_char (lucene_escape s) = true.
+  Proof.
+    induction s as [|c s IH]; [reflexivity|]. cbn [forallb lucene_escape]. intros H.
+    apply andb_true_iff in H as [Hc H]. destruct (lucene_special c); cbn [forallb]; rewrite ?Hc, IH; auto.
+  Qed.
+
+  Lemma escape_nonempty s : nonempty s = true -> nonempty (lucene_escape s) = true.
+  Proof. destruct s as [|c s]; [discriminate|]. intros _. cbn. destruct (lucene_special c); reflexivity. Qed.
+
+  Lemma bound_text cv :
+    bound_ok cv = true ->
+    cval_from (cval_lucene fdisp cv) = cv /\ nonempty (cval_lucene fdisp cv) = true /\
+    forallb range_char (cval_lucene fdisp cv) = true.
+  Proof.
+    destruct cv as [|s|z|f]; cbn [bound_ok cval_lucene]; intros H.
+    - repeat split.
+    - unfold str_bound_ok in H. apply andb_true_iff in H as [H F]. apply andb_true_iff in H as [H I].
+      apply andb_true_iff in H as [H S]. apply andb_true_iff in H as [H Q]. apply andb_true_iff in H as [N R].
+      repeat split; [|apply escape_nonempty; exact N | apply escape_range_chars; exact R].
+      unfold cval_from. rewrite unescape_lucene_escape. apply bytes_eqb_eq in Q. rewrite Q.
+      apply negb_true_iff in S. rewrite S.
+      destruct (parse_i64 s); [discriminate|]. destruct (parse_f64 s); [discriminate|]. reflexivity.
+    - destruct (int_text_ok z H) as (A & B & (c & r & E & _) & _). repeat split; auto. rewrite E. reflexivity.
+    - destruct (Hfloat f H) as (A & B & (c & r & E & _) & _). repeat split; auto. rewrite E. reflexivity.
+  Qed.
+
+  Theorem clause_range a lo hi b rest :
+    attr_ok a = true -> bound_ok lo = true -> bound_ok hi = true ->
+    parse_clause sub DEFAULT_FIELD (to_lucene fdisp (NRange a lo b hi b) ++ rest) = Some (VOk (NRange a lo b hi b), rest).
+  Proof.
+    intros A Hlo Hhi. destruct (bound_text lo Hlo) as (Cl & Nl & Rl). destruct (bound_text hi Hhi) as (Ch & Nh & Rh).
+    cbn [to_lucene]. rewrite <- app_assoc.
+    set (LO := cval_lucene fdisp lo) in *. set (HI := cval_lucene fdisp hi) in *.
+    assert ((if b then [91] else [123]) ++ LO ++ bs " TO " ++ HI ++ (if b then [93] else [125])
+            = lbr b :: (LO ++ bs " TO " ++ HI ++ [rbr b])) as HV by (destruct b; reflexivity).
+    rewrite (clause_leaf a _ (PVRange b LO HI b) rest (lbr b) _ (attr_ok_raw a A) HV).
+    - rewrite clause_node_general by exact A. rewrite attr_unescape by exact A.
+      rewrite Bool.eqb_reflx, Cl, Ch. reflexivity.
+    - destruct b; reflexivity.
+    - rewrite HV. cbn [app]. rewrite <- !app_assoc. cbn [app].
+      replace (LO ++ bs " TO " ++ HI ++ rbr b :: rest) with (LO ++ bs " TO " ++ HI ++ rbr b :: rest) by reflexivity.
+      apply parse_value_range; auto.
+    - intros _. rewrite HV. destruct b; split; reflexivity.
+  Qed.
+End Clause.
